@@ -641,6 +641,54 @@ func ruleTreeDelegation(c *Ctx, r *R) {
 				}
 			}
 		})
+		if f == nil {
+			// the projection written as a wrapper type of its own (&keyIterator[T]{pairs: …} whose Next returns pair.Key): its
+			// Next hands out the Key of the pair it has just pulled
+			okView, found := false, false
+			var vpos token.Pos
+			instrs(outer, func(_ *ssa.BasicBlock, _ int, in ssa.Instruction) {
+				al, ok := in.(*ssa.Alloc)
+				if !ok {
+					return
+				}
+				if inner, nx := iterViewOf(c, al); inner != nil && nx != nil {
+					found = true
+					vpos = nx.Pos()
+					instrs(nx, func(_ *ssa.BasicBlock, _ int, in2 ssa.Instruction) {
+						ret, ok := in2.(*ssa.Return)
+						if !ok || len(ret.Results) != 2 {
+							return
+						}
+						isPulledPair := func(v ssa.Value) bool {
+							ex, isEx := v.(*ssa.Extract)
+							if !isEx || ex.Index != 0 {
+								return false
+							}
+							pc, isCall := ex.Tuple.(*ssa.Call)
+							return isCall && pc.Call.IsInvoke() && pc.Call.Method.Name() == "Next"
+						}
+						rv := returnedValue(ret, 0)
+						if fld, isF := rv.(*ssa.Field); isF && fieldName(fld.X.Type(), fld.Field) == "Key" && isPulledPair(fld.X) {
+							okView = true
+						}
+						// the pair kept in a local variable (pair, ok := iter.pairs.Next(); … return pair.Key, true)
+						if ld, isLd := rv.(*ssa.UnOp); isLd && ld.Op == token.MUL {
+							if fa, isFA := ld.X.(*ssa.FieldAddr); isFA && fieldName(fa.X.Type(), fa.Field) == "Key" {
+								if cell, isAl := fa.X.(*ssa.Alloc); isAl {
+									if sts := storesTo(cell); len(sts) == 1 && isPulledPair(sts[0].Val) {
+										okView = true
+									}
+								}
+							}
+						}
+					})
+				}
+			})
+			if found {
+				r.ok(okView, "tree."+n+"$1|projects-key", vpos, "a Set iterator must yield the pair's Key")
+				continue
+			}
+		}
 		if f == nil || len(f.Params) == 0 {
 			r.undecided("tree."+n+"$1|missing", token.NoPos, "anchor not found")
 			continue
